@@ -20,11 +20,16 @@ Definition get_retry_options (o : option retry_opts) : retry_opts :=
 
 Definition nil_err : goerr := {| e_nil := true; e_sys := false; e_code := 0; e_net := false |}.
 
-(* getHost: bytes before the first ':' (58); whole string when there is none *)
+(* getHost: bytes before the LAST ':' (58); whole string when there is none *)
+Fixpoint gh_has_colon (l : list Z) : bool :=
+  match l with
+  | [] => false
+  | c :: r => orb (c =? 58) (gh_has_colon r)
+  end.
 Fixpoint get_host (hp : list Z) : list Z :=
   match hp with
   | [] => []
-  | c :: r => if c =? 58 then [] else c :: get_host r
+  | c :: r => if c =? 58 then (if gh_has_colon r then c :: get_host r else []) else c :: get_host r
   end.
 
 (* AddSelectedPeer: the set gains hostPort and host.  Kept as an insertion-ordered list. *)
